@@ -45,6 +45,22 @@ FRAGS = [None, None, "", "f", "/?", "a/b", "f%41", ":@", "%C3%A9", "@", "u@h:8",
 FRAGS_I = FRAGS + ["é"] + ALIAS[:5]
 
 
+# G1b: components composed from atoms (the fixed lists above only contain what somebody thought of)
+ATOMS = ["a", "b", "Z", "0", "9", "-", ".", "_", "~", "!", "$", "&", "'", "(", ")", "*", "+", ",", ";", "=",
+         "%41", "%61", "%2F", "%2f", "%3A", "%3a", "%40", "%3F", "%23", "%25", "%2E", "%2e", "%00", "%7F",
+         "%C3%A9", "%c3%a9", "%E2%82%AC", "%F0%9F%98%80", "%FF", "%C0%AF", "%20"]
+ATOMS_I = ["\u00e9", "\u00df", "\u20ac", "\u65e5", "\u672c", "\U00010000", "\U0001f600", "e\u0301", "\u200b"] + ALIAS
+
+
+def rand_component(rng, f, extra=(), private=False):
+    """0-4 atoms: unreserved, sub-delims, escapes in both cases, characters of every UTF-8 length for
+    the IRI family, plus the delimiters (`extra`) this component may contain"""
+    pool = ATOMS + list(extra) * 3
+    if f == "i":
+        pool = pool + ATOMS_I + (["\ue000", "\U000f0000"] if private else [])
+    return "".join(rng.choice(pool) for _ in range(rng.choice([0, 1, 1, 2, 2, 3, 4])))
+
+
 def fam_lists(f):
     if f == "i":
         return USERINFOS_I, HOSTS_I, SEGS_I, QUERIES_I, FRAGS_I
@@ -56,6 +72,10 @@ def rand_authority(rng, f):
     u = rng.choice(U)
     h = rng.choice(H)
     p = rng.choice(PORTS)
+    if rng.random() < 0.35 and u is not None:
+        u = rand_component(rng, f, (":",))
+    if rng.random() < 0.35:
+        h = rand_component(rng, f)
     return ("" if u is None else u + "@") + h + ("" if p is None else ":" + p)
 
 
@@ -67,7 +87,7 @@ def rand_path(rng, f, kind=None, maxseg=5):
     n = rng.choice([0, 1, 1, 2, 2, 3, 3, 4, maxseg])
     if rng.random() < 0.02:
         n = rng.choice([17, 20, 40])
-    segs = [rng.choice(S) for _ in range(n)]
+    segs = [rng.choice(S) if rng.random() < 0.65 else rand_component(rng, f, (":", "@")) for _ in range(n)]
     if rng.random() < 0.01:
         segs = ["a" * 120] * 5
     if kind == "empty":
@@ -107,6 +127,10 @@ def rand_ref(rng, f, full=False):
         s += rand_path(rng, f, kind)
     q = rng.choice(Q)
     fr = rng.choice(F)
+    if q is not None and rng.random() < 0.35:
+        q = rand_component(rng, f, (":", "@", "/", "?"), private=True)
+    if fr is not None and rng.random() < 0.35:
+        fr = rand_component(rng, f, (":", "@", "/", "?"))
     if q is not None:
         s += "?" + q
     if fr is not None:
@@ -309,7 +333,7 @@ def stream_parts(rng, tier):
     for s in exhaustive("é:/?#", 4 if tier == "quick" else 5):
         yield "parts i ref %s" % hx(s)
         yield "parts i full %s" % hx(s)
-    n = 4000 if tier == "quick" else 200000
+    n = 12000 if tier == "quick" else 200000
     for _ in range(n):
         f = rng.choice("ui")
         full = rng.random() < 0.4
@@ -338,7 +362,7 @@ def stream_auth(rng, tier):
             yield "auth i %s" % hx(a)
             yield "parts i ref %s" % hx("//" + a + "/p")
             yield "parts i full %s" % hx("s://" + a + "/p?q#f")
-    n = 500 if tier == "quick" else 20000
+    n = 1500 if tier == "quick" else 20000
     for _ in range(n):
         f = rng.choice("ui")
         yield "auth %s %s" % (f, hx(mutate(rng, rand_authority(rng, f))))
@@ -459,7 +483,7 @@ def stream_setters(rng, tier):
             for o2 in rng.sample(grow, 3):
                 for o3 in rng.sample(grow, 2):
                     yield "hist u ref %s %s %s %s" % (hx(b), o1, o2, o3)
-    n = 3000 if tier == "quick" else 100000
+    n = 9000 if tier == "quick" else 100000
     for _ in range(n):
         f = rng.choice("ui")
         full = rng.random() < 0.3
@@ -469,7 +493,7 @@ def stream_setters(rng, tier):
 
 def stream_history(rng, tier):
     """C04: mixed operation sequences on all six buffer types"""
-    n = 4000 if tier == "quick" else 150000
+    n = 12000 if tier == "quick" else 150000
     for _ in range(n):
         f = rng.choice("ui")
         t = rng.choice(["ref", "ref", "full", "path"])
@@ -578,7 +602,7 @@ def stream_pathmut(rng, tier):
                 if ":" not in p:
                     yield "hist %s ref %s pm[sapp:%s]" % (f, hx("s:" + p), hx(c))
                     yield "hist %s ref %s pm[%s]" % (f, hx("s:" + p + "#f"), steps)
-    n = 3000 if tier == "quick" else 100000
+    n = 9000 if tier == "quick" else 100000
     for _ in range(n):
         f = rng.choice("ui")
         ops = pm_ops(rng, f, rng.choice([1, 2, 3, 5, 8]))
@@ -622,7 +646,7 @@ def stream_authmut(rng, tier):
             yield "hist %s ref %s am[%s]" % (f, hx(b), o)
             yield "hist %s ref %s am[port:%s;%s]" % (f, hx(b), hx("40"), o)
             yield "hist %s ref %s am[%s;port:%s]" % (f, hx(b), o, hx("40"))
-    n = 3000 if tier == "quick" else 100000
+    n = 9000 if tier == "quick" else 100000
     for _ in range(n):
         f = rng.choice("ui")
         _, _, _, Q, F = fam_lists(f)
@@ -665,7 +689,7 @@ def stream_resolve(rng, tier):
             for f in "ui":
                 yield "resolve %s %s %s" % (f, hx(b), hx(r))
                 yield "resolve %s %s %s" % (f, hx(b + "?q"), hx(r + "#f"))
-    n = 4000 if tier == "quick" else 200000
+    n = 12000 if tier == "quick" else 200000
     for _ in range(n):
         f = rng.choice("ui")
         yield "resolve %s %s %s" % (f, hx(rand_ref(rng, f, True)), hx(rand_ref(rng, f)))
@@ -725,7 +749,7 @@ def stream_cmp(rng, tier):
         for b in refs + rels:
             yield "cross u %s %s" % (hx(a), hx(b))
             yield "cross i %s %s" % (hx(a), hx(b))
-    n = 3000 if tier == "quick" else 100000
+    n = 9000 if tier == "quick" else 100000
     for _ in range(n):
         f = rng.choice("ui")
         a = rand_ref(rng, f, True)
@@ -788,7 +812,7 @@ def stream_paths(rng, tier):
     for p in long_paths():
         for f in "ui":
             yield "pathq %s %s" % (f, hx(p))
-    n = 3000 if tier == "quick" else 100000
+    n = 9000 if tier == "quick" else 100000
     for _ in range(n):
         f = rng.choice("ui")
         p = rand_path(rng, f, "any", 6)
@@ -839,7 +863,7 @@ def stream_relto(rng, tier):
                         yield "relto %s %s %s" % (f, hx(d + t + suf), hx(d + enc))
                         yield "relto %s %s %s" % (f, hx(d + enc + suf), hx(d + t))
                         yield "relto %s %s %s" % (f, hx(d + t + suf), hx(d + enc + "?bq"))
-    n = 2000 if tier == "quick" else 100000
+    n = 6000 if tier == "quick" else 100000
     for _ in range(n):
         f = rng.choice("ui")
         a = rand_ref(rng, f, True)
@@ -888,7 +912,7 @@ def stream_suffix(rng, tier):
         yield "base u ref %s" % hx(s)
         if ":" in s:
             yield "base u full %s" % hx(s)
-    n = 2000 if tier == "quick" else 50000
+    n = 6000 if tier == "quick" else 50000
     for _ in range(n):
         f = rng.choice("ui")
         a = rand_ref(rng, f)
@@ -910,7 +934,7 @@ def stream_views(rng, tier):
     for s in exhaustive("é:/?#", 4):
         if ":" in s:
             yield "views i %s" % hx(s)
-    n = 2000 if tier == "quick" else 50000
+    n = 6000 if tier == "quick" else 50000
     for _ in range(n):
         f = rng.choice("ui")
         yield "views %s %s" % (f, hx(rand_ref(rng, f, True)))
@@ -921,7 +945,7 @@ def stream_convert(rng, tier):
     for s in exhaustive("a:/?#é", 4 if tier == "quick" else 5):
         for k in ("uri", "uriref", "iri", "iriref"):
             yield "convert %s %s" % (k, hx(s))
-    n = 3000 if tier == "quick" else 100000
+    n = 9000 if tier == "quick" else 100000
     for _ in range(n):
         f = rng.choice("ui")
         full = rng.random() < 0.5
@@ -1024,7 +1048,7 @@ def stream_dataurl(rng, tier):
     for s in exhaustive("da:,;b", 5 if tier == "quick" else 6):
         yield "dataurl %s" % hx(s)
         yield "dataurl %s" % hx("data:" + s)
-    n = 1000 if tier == "quick" else 50000
+    n = 3000 if tier == "quick" else 50000
     b64c = "ABCDabcd0189+/="
     for _ in range(n):
         body = "".join(rng.choice(b64c) for _ in range(rng.randrange(0, 12)))
@@ -1047,7 +1071,7 @@ def stream_pct(rng, tier):
                     if f == "u" and "é" in a + b:
                         continue
                     yield "pct %s %s %s" % (f, kind, hx(a + b))
-    n = 2000 if tier == "quick" else 100000
+    n = 6000 if tier == "quick" else 100000
     for _ in range(n):
         f = rng.choice("ui")
         s = "".join(rng.choice(PCT_ATOMS) for _ in range(rng.randrange(0, 5)))
@@ -1074,7 +1098,7 @@ def stream_pct(rng, tier):
             for f in "ui":
                 yield "pctref %s %s" % (f, hx(t.replace("%s", e)))
                 yield "parts %s ref %s" % (f, hx(t.replace("%s", e)))
-    n = 1500 if tier == "quick" else 60000
+    n = 4500 if tier == "quick" else 60000
     for _ in range(n):
         f = rng.choice("ui")
         yield "pctref %s %s" % (f, hx(rand_ref(rng, f)))
@@ -1103,7 +1127,7 @@ def stream_ptr(rng, tier):
                 yield "ptr %s ref %s" % (f, hx(s0))
                 if s0.startswith("s:"):
                     yield "ptr %s full %s" % (f, hx(s0))
-    n = 3000 if tier == "quick" else 100000
+    n = 9000 if tier == "quick" else 100000
     for _ in range(n):
         f = rng.choice("ui")
         full = rng.random() < 0.4
